@@ -294,3 +294,17 @@ def mutate_target(rng, y, kind, tkind):
         elif kind == "shift":
             y += 50.0
     return y
+
+
+def widen(rng, spec, prob=0.12, n_range=(40, 120), p_range=(80, 320), p0=(1, 3, 10), fracs=(0.05, 0.2, 0.5)):
+    """"wide" size class, drawn after all other draws of a generator (their random stream is unchanged): many more
+    features than the first working set, so that it must grow over several outer iterations while most features are
+    never visited.  Mutates and returns `spec` (None passes through)."""
+    if spec is None:
+        return None
+    if rng.random() < prob:
+        spec.update(n=int(rng.integers(*n_range)), p=int(rng.integers(*p_range)), size="wide",
+                    alpha_frac=float(rng.choice(list(fracs))))
+        if "p0" in spec.get("knobs", {}):
+            spec["knobs"]["p0"] = int(rng.choice(list(p0)))
+    return spec
